@@ -840,6 +840,124 @@ def path_name(events):
     return s
 
 
+def multilimb_cases(rng, K, add, thorough):
+    """Every operation of the property on MULTI-LIMB n (|n| >= 2^64), deterministically: n is built from known primes (so "the
+    returned factor divides n and is > 1" needs no factoring), just above 2^64, 2^65, 2^80, 2^127, 2^128, with the LOW 64-bit limb chosen
+    (a) coprime / (b) not coprime to each of the two primorials of factor(), n itself sharing a factor with the first primorial only /
+    the second only / neither; primes of those sizes with both kinds of low limb; prime powers.  Factors stay <= 2^40 (Pollard ~2^20 steps)."""
+    P1, P2, M = K["PROD_FIRST"], K["PROD_SECOND"], (1 << 64) - 1
+    done = {}
+
+    def limb_class(n):
+        return (math.gcd(n & M, P1) == 1, math.gcd(n & M, P2) == 1)
+
+    def search(make, want, tries=400):
+        """first candidate from make(k), k = 0, 1, ... whose low limb has the wanted coprimality pattern (None = any)"""
+        for k in range(tries):
+            c = make(k)
+            if c is not None and (want is None or limb_class(c[0]) == want):
+                return c
+        return None
+    FORMS1 = ["factor", "iffactorprime", "primefactor"]
+    FORMS2 = ["set2.vec", "set2.list", "set1.vec", "write", "divisors.n"]
+    sizes = [(64, 33, 32), (65, 33, 33), (80, 45, 35)] + ([(72, 37, 36), (81, 41, 40)] if thorough else [])
+    seedoff = rng.range(0, 1000)
+    for bits, b1, b2 in sizes:
+        for want in ((True, True), (False, True), (True, False), (False, False)):
+            for small, cl in ((1, "neither primorial"), (7, "first primorial"), (31, "second primorial only")):
+                for off, tag in ((0, "fixed"), (seedoff, "seed-dependent")):
+                    if small != 1 and (tag != "fixed" or bits not in (64, 80)):
+                        continue
+                    if not thorough and tag != "fixed" and bits != 64:
+                        continue
+                    p0 = next_prime((1 << b1) + 1000 * off)
+
+                    def make(k, p0=p0, b2=b2, small=small, bits=bits):
+                        q = next_prime((1 << b2) + 7919 * k + 13)
+                        n = small * p0 * q
+                        return (n, {p0: 1, q: 1} if small == 1 else {small: 1, p0: 1, q: 1}) if n >> 64 and q != p0 else None
+                    c = search(make, want)
+                    if c is None:
+                        continue
+                    n, f = c
+                    kl = "multi-limb n ~2^%d, %s, low limb %scoprime to the first primorial, %scoprime to the second" % (n.bit_length(), cl, "" if want[0] else "NOT ", "" if want[1] else "NOT ")
+                    heavy = bits >= 81 and not thorough and small == 1        # two ~2^40 factors: ~2^20 Pollard steps per call, fewer forms in quick
+                    for v in (FORMS1 if not heavy else ["factor", rng.choice(["iffactorprime", "primefactor"])]):
+                        add(v, [n], "factor1", f, kl)
+                    for v in (FORMS2 if tag == "fixed" and not heavy else [rng.choice(FORMS2), rng.choice(FORMS2)]):
+                        add(v, [n if v != "write" else -n], "set", f, kl)
+                    add("ipp", [n], "ipp", f, kl)
+                    if small == 1 and tag == "fixed" and not heavy:
+                        add("factor.loops", [n, 1000000], "factor1", f, kl)
+                        add("set2.loops", [n, 1000000], "set", f, kl)
+                        add("pollard", [n], "factor1", f, kl)
+    # four primes of ~2^32: n above 2^127 and above 2^128
+    for lo, want in ((127, (True, True)), (127, (False, True)), (128, (True, False)), (128, (False, False)), (128, (False, True))):
+        ps3 = [next_prime((1 << 32) + 100000 * i + 7) for i in (1, 2, 3)]
+
+        def make4(k, ps3=ps3, lo=lo):
+            q = next_prime((1 << (lo - 96 + 1)) + 104729 * k)
+            n = ps3[0] * ps3[1] * ps3[2] * q
+            return (n, {ps3[0]: 1, ps3[1]: 1, ps3[2]: 1, q: 1}) if n.bit_length() > lo and q not in ps3 else None
+        c = search(make4, want)
+        if c:
+            n, f = c
+            kl = "multi-limb n ~2^%d, four primes, low limb %scoprime to the first primorial, %scoprime to the second" % (n.bit_length(), "" if want[0] else "NOT ", "" if want[1] else "NOT ")
+            for v in FORMS1 + ["set2.vec", "divisors.n", "write", "set1.list"]:
+                add(v, [n], "factor1" if v in FORMS1 else "set", f, kl)
+    # primes just above 2^64, 2^65, 2^80, 2^127, 2^128 with both kinds of low limb; their squares / cubes for isprimepower
+    for e in (64, 65, 80, 127, 128):
+        for want0 in (True, False):
+            def makep(k, e=e):
+                q = next_prime((1 << e) + 1000 * k)
+                return (q, {q: 1})
+            c = search(makep, None if False else (want0, True)) or search(makep, (want0, False))
+            if not c:
+                continue
+            n, f = c
+            kl = "multi-limb prime ~2^%d, low limb %scoprime to the first primorial" % (e, "" if want0 else "NOT ")
+            for v in FORMS1 + ["set2.vec", "set1.vec", "write", "divisors.n", "pollard"]:
+                add(v, [n], "factor1" if v in FORMS1 + ["pollard"] else "set", f, kl)
+            add("isprime", [n], "isprime", klass="n>=2^16")
+            add("ipp", [n], "ipp", f, kl)
+    for b in ((33, 34, 22) if not thorough else (33, 34, 43, 22)):
+        for want0 in (True, False):
+            def makesq(k, b=b):
+                q = next_prime((1 << b) + 997 * k)
+                ex = 2 if b > 30 else 3
+                return (q ** ex, {q: ex}) if (q ** ex) >> 64 else None
+            c = search(makesq, (want0, True)) or search(makesq, (want0, False))
+            if c:
+                n, f = c
+                kl = "multi-limb prime power, low limb %scoprime to the first primorial" % ("" if want0 else "NOT ")
+                add("ipp", [n], "ipp", f, kl)
+                add("ipp.alias", [n], "ipp", f, kl)
+                for v in FORMS1 + ["set2.vec", "divisors.n", "write"]:
+                    add(v, [n], "factor1" if v in FORMS1 else "set", f, kl)
+    # next / prev prime across 2^64, 2^65, 2^127, 2^128 (every form)
+    for e in (64, 65, 127, 128):
+        for d in (-60, -1, 0, 1, 2, 59):
+            for v in ("next.na", "next.alias", "next.in", "prev.na", "prev.alias", "prev.in", "pnext", "pprev", "pnext.alias", "pprev.alias"):
+                add(v, [(1 << e) + d], "np", klass="large p")
+    # scripted walks on multi-limb n made of small primes (the model's own walk on several limbs), both kinds of low limb
+    Pm = [x for x in SMALLP if 101 <= x <= 499]
+    for want0 in (True, False):
+        def makes(k):
+            ps = Pm[k % 7:k % 7 + 22:2]
+            return (prod_fac({q: 1 for q in ps}) * Pm[(k * 5 + 40) % len(Pm)], None)
+        c = search(makes, (want0, True)) or search(makes, (want0, False))
+        if c and c[0] >> 64:
+            n = c[0]
+            f, m = {}, n
+            for q in Pm:
+                while m % q == 0:
+                    f[q] = f.get(q, 0) + 1; m //= q
+            ys = [rng.range(0, n - 1) for _ in range(40)]
+            kl = "multi-limb n of small primes, random start values, low limb %scoprime to the first primorial" % ("" if want0 else "NOT ")
+            for v in ("s.factor", "s.iffactorprime", "s.primefactor", "s.pollard", "s.set2", "s.divisors" if len(all_divisors(f)) <= 5000 else "s.set2.list"):
+                add(v, [n, 0] + ys + list(range(900, 940)), "scripted", f, kl)
+
+
 def scripted_grid(rng, K, add):
     """the scripted Pollard paths of the operation grid that is run on every copy of the domain"""
     M7 = {103: 1, 109: 1, 127: 1, 139: 1, 151: 1, 157: 1, 163: 1}
@@ -1238,6 +1356,9 @@ def gen_cases(rng, tier, chk, K=None):
     # ---- E. scripted random walks, in-place call forms, Miller with a chosen witness
     if K:
         scripted_cases(rng, K, add, thorough)
+    # ---- E2. multi-limb n
+    if K:
+        multilimb_cases(rng, K, add, thorough)
     # ---- F. every operation with an output parameter, called with the output being the input object: exhaustive sweeps
     add("nextrange.alias", [-6, hi], "nprange", klass="exhaustive, in place")
     add("prevrange.alias", [4, hi], "nprange", klass="exhaustive, in place")
